@@ -325,7 +325,7 @@ pub fn table() -> Vec<Entry> {
 
     // ---- UnionFind (receivers: forests reachable by unions; deltas: any edge list) -------------
     own!(v, latd, UfH, p(3, 0, 2), p(4, 0, 3));
-    own!(v, latd, UfB, p(3, 0, 2), p(4, 0, 3));
+    own!(v, latd, UfB, p(3, 0, 2), p(3, 0, 3));
     cross!(v, latd UfH, latd UfB, [delta, sym, ord], p(3, 0, 2), p(3, 0, 3));
     cross!(v, latd UfH, none UfV, [delta], p(3, 0, 2), p(3, 0, 3));
     cross!(v, latd UfH, none UfS, [delta], p(3, 0, 2), p(4, 0, 3));
@@ -365,12 +365,12 @@ pub fn table() -> Vec<Entry> {
     cross!(v, latd DG<HS, BS>, latd DG<BS, HS>, [delta, sym, ord], q, t3);
 
     // ---- two-level nestings ----------------------------------------------------------------------
-    own!(v, latd, HM<HM<HS>>, p(2, 1, 2), q);
+    own!(v, latd, HM<HM<HS>>, p(2, 1, 2), p(2, 1, 2));
     own!(v, latd, WithTop<HM<HS>>, q, p(3, 2, 2));
-    own!(v, latd, Pair<VecUnion<MxU>, WithBot<HS>>, q, t3);
+    own!(v, latd, Pair<VecUnion<MxU>, WithBot<HS>>, q, p(2, 2, 3));
     own!(v, latd, HM<WithBot<HS>>, q, p(3, 2, 2));
     own!(v, latd, HM<Pair<MxB, HS>>, p(2, 1, 2), q);
-    own!(v, latd, VecUnion<HM<MxB>>, p(2, 1, 2), p(2, 1, 3));
+    own!(v, latd, VecUnion<HM<MxB>>, p(2, 1, 2), p(2, 1, 2));
     cross!(v, latd HM<HM<HS>>, ord SM<SM<SS>>, [delta, ord], p(2, 1, 2), q);
     cross!(v, latd WithTop<HM<HS>>, ord WithTop<SM<SS>>, [delta, ord], q, p(3, 2, 2));
     cross!(v, latd Pair<VecUnion<MxU>, WithBot<HS>>, ord Pair<VecUnion<MxU>, WithBot<SS>>, [delta, ord], q, q);
